@@ -186,7 +186,8 @@ AssemblyMethods == {"calc_k0", "calc_k0_c", "calc_kG0", "calc_kG0_c", "calc_kM",
 
 (* ---- StiffPanelBay (stiffpanelbay.py) + stiffeners (stiffener/*.py) --- *)
 BaseReset == StXs("base", <<"model", "alpharad", "r", "lam", "F", "size">>)
-S1W == StWs("s", <<"hf", "Asf", "flam", "Asb", "dbf", "Iyy", "Jxx", "As", "E1", "S1", "F1">>)
+S1W == StPs("s", <<"Asb", "Asf">>)           \* Asb / Asf are tested for None before they are (re)computed
+       \o StWs("s", <<"hf", "Asf", "flam", "Asb", "dbf", "Iyy", "Jxx", "As", "E1", "S1", "F1">>)
 RAssert == <<StA("p1", "r", "p2", "r", "r_mismatch")>>      \* assert self.panel1.r == self.panel2.r
 SReb(k) ==   \* stiffener._rebuild
     CASE k = "BayB1"  -> RAssert \o S1W                                                          \* bladestiff1d.py:62-113
